@@ -180,3 +180,10 @@ package glyf
 //@   requires forall k int :: 1 <= k && k < len(offs) ==> offs[k-1] <= offs[k]
 //@   ensures err == nil ==> len(res) == len(offs)
 //@   ensures err == nil && 0 <= i && i < len(offs) ==> res[i] == offs[i]
+
+// NumGlyphs (implements sfnt.Outlines; the interface contract assumed in
+// package sfnt states the same).
+//@ func (o *Outlines) NumGlyphs() (n int)   props: C16
+//@   requires o != nil
+//@   ensures n == len(o.Glyphs)
+//@   modifies nothing
